@@ -16,5 +16,8 @@ def check(ctx):
     cursor.analyze(ctx, RULES | {"C10.a"})
     from . import adaptors
     adaptors.analyze(ctx, ("C09.g",))
+    # (C06.e: positions are those of the caller's input: the iterator is created over that very string)
+    from . import pC06
+    pC06.fresh_iterator_rules(ctx)
     from .common import cache_foundation
     cache_foundation(ctx)
